@@ -27,6 +27,10 @@
 (*             the reduced universe U3 (pairs of one family, plus any as   *)
 (*             consumer and as producer against one of every family)       *)
 (*                                                                         *)
+(* Units: ints and floats with the package-level unit sets and a generated *)
+(* one; typed lists and maps beside the plain ones in every bound shape.   *)
+(* Histories ("hist"): see Hists below.                                    *)
+(*                                                                         *)
 (* Modes: "direct" (both built independently from the AST), "self" (the    *)
 (* producer is the very same Go value), "rb" / "ra" (producer / consumer   *)
 (* is a scope rebuilt from its own description: SelfSerialize +            *)
@@ -51,6 +55,12 @@ Str  == Scalar("string", None, None)
 Scalars(B) == {Scalar(k, b[1], b[2]) : k \in {"int", "float", "string"}, b \in B}
 Lists(B)   == {List(BoolS, b[1], b[2]) : b \in B}
 Maps(B)    == {Map(Str, BoolS, b[1], b[2]) : b \in B}
+TLists(B)  == {ListI(BoolS, b[1], b[2], "typed") : b \in B}
+TMaps(B)   == {MapI(Str, BoolS, b[1], b[2], "typed") : b \in B}
+\* ints and floats with units: the package-level sets and a generated one
+UnitScalars == {ScalarU(k, None, None, u) : k \in {"int", "float"}, u \in {"bytes", "time", "custom"}}
+UnitScalars3 == {ScalarU("int", None, None, "bytes"), ScalarU("int", None, None, "custom"),
+                 ScalarU("float", None, None, "time"), ScalarU("float", None, None, "custom")}
 Enums(E)   == {Enum(k, vs, n) : k \in {"enum_int", "enum_string"}, vs \in E, n \in BOOLEAN}
 Simple     == {BoolS, PatternS, AnyS}
 
@@ -121,19 +131,24 @@ Rec2(leaf, extra) ==                                                            
 Recs == { Rec1(IntU), Rec1(Str), RecL(IntU), RecM(IntU), RecO(IntU),
           Rec2(IntU, {}), Rec2(Str, {}), Rec2(IntU, {Prop("w", BoolS, FALSE)}) }
 
-Universe(B, E) == Scalars(B) \cup Lists(B) \cup Maps(B) \cup Enums(E) \cup Simple
+\* typed lists in every bound shape of B, typed maps in the shapes of the reduced bounds B3
+Universe(B, E, B3) == Scalars(B) \cup UnitScalars \cup Lists(B) \cup TLists(B) \cup Maps(B) \cup TMaps(B3)
+                  \cup Enums(E) \cup Simple
                   \cup Objects \cup OneOfs \cup Scopes \cup Recs
-U0 == Universe(BoundsOf(MinVals, MaxVals), EnumSets)
-U3 == Scalars(BoundsOf(MinVals3, MaxVals3)) \cup Lists(BoundsOf(MinVals3, MaxVals3))
-      \cup Maps(BoundsOf(MinVals3, MaxVals3)) \cup Enums(EnumSets3) \cup Simple
+U0 == Universe(BoundsOf(MinVals, MaxVals), EnumSets, BoundsOf(MinVals3, MaxVals3))
+U3 == Scalars(BoundsOf(MinVals3, MaxVals3)) \cup UnitScalars3 \cup Lists(BoundsOf(MinVals3, MaxVals3))
+      \cup Maps(BoundsOf(MinVals3, MaxVals3)) \cup TLists(BoundsOf(MinVals3, MaxVals3))
+      \cup TMaps(BoundsOf(MinVals3, MaxVals3)) \cup Enums(EnumSets3) \cup Simple
       \cup Objects \cup OneOfs \cup {S0, SM, Rec1(IntU), Rec1(Str)}
 
 \* one representative per family, compared across families below the wrappers
 Reps == {IntU, FloatU, Str, BoolS, PatternS, AnyS, List(BoolS, None, None), Map(Str, BoolS, None, None),
-         Enum("enum_int", {1}, FALSE), Enum("enum_string", {1}, FALSE), O0, OM, OT, X0, S0, SM, Rec1(IntU)}
+         Enum("enum_int", {1}, FALSE), Enum("enum_string", {1}, FALSE), O0, OM, OT, X0, S0, SM, Rec1(IntU),
+         ListI(BoolS, None, None, "typed"), MapI(Str, BoolS, None, None, "typed"), ScalarU("int", None, None, "bytes")}
 \* ... and below the wrapper pairs of depth 3 (any and pattern against every kind, three levels down)
 Reps3 == {IntU, FloatU, Str, BoolS, PatternS, AnyS, List(BoolS, None, None), Map(Str, BoolS, None, None),
-          O0, OM, OT, X0, S0, SM} \cup {e \in U3 : e.kind \in {"enum_int", "enum_string"} /\ ~e.named}
+          O0, OM, OT, X0, S0, SM, ListI(BoolS, None, None, "typed"), MapI(Str, BoolS, None, None, "typed"),
+          ScalarU("int", None, None, "bytes")} \cup {e \in U3 : e.kind \in {"enum_int", "enum_string"} /\ ~e.named}
 
 \* ------------------------------------------------------------------ wrappers
 Wrappers == {"list", "mapval", "mapkey", "prop", "scope", "ref", "member"}
@@ -160,19 +175,39 @@ Modes(a, b) == {"direct"}
                \cup (IF b.kind = "scope" THEN {"rb"} ELSE {})
                \cup (IF a.kind = "scope" /\ a = b THEN {"ra"} ELSE {})
 
-Case(a, b, m) == [a |-> a, b |-> b, mode |-> m]
+\* Histories.  Unit sets fill private caches when they first parse a unit-suffixed string ("5kB"); "a" /
+\* "b": every unit-carrying int / float of the directly built consumer / producer parses such a string
+\* before anything else happens (before the description is taken in the rebuilt modes, before the
+\* compatibility call).  The package-level unit sets are process state shared by every schema naming them:
+\* the harness lets an unrelated schema parse with each of them before any case, so they are always "used".
+\* No expectation depends on the history.
+Hists(a, b, m) == {"none"} \cup (IF HasUnits(a) THEN {"a"} ELSE {})
+                          \cup (IF HasUnits(b) /\ m # "self" THEN {"b"} ELSE {})
+
+Case(a, b, m, h) == [a |-> a, b |-> b, mode |-> m, hist |-> h]
+Pick(a, b) == \E m \in Modes(a, b) : \E h \in Hists(a, b, m) : v = Case(a, b, m, h)
+
+\* the typed containers and the unit-carrying scalars meet their own family and the representatives of the
+\* others (not every unrelated schema); below a wrapper the typed lists keep the reduced bound shapes and
+\* the unit-carrying scalars are those of the reduced universe
+Ext(s) == \/ s.kind \in {"list", "map"} /\ s.impl = "typed"
+          \/ s.kind \in {"int", "float"} /\ s.units # "none"
+Deep2(s) == /\ (s.kind = "list" /\ s.impl = "typed") => <<s.min, s.max>> \in BoundsOf(MinVals3, MaxVals3)
+            /\ (s.kind \in {"int", "float"} /\ s.units # "none") => s \in UnitScalars3
 
 Init ==
-    \/ \E s \in U0 : \E t \in U0 : \E m \in Modes(s, t) : v = Case(s, t, m)
+    \/ \E s \in U0 : \E t \in U0 :
+          /\ (~Ext(s) /\ ~Ext(t)) \/ Related(s, t) \/ (s \in Reps /\ t \in Reps)
+          /\ Pick(s, t)
     \/ \E w \in Wrap2 : \E s \in U0 : \E t \in U0 :
           /\ Related(s, t) \/ (s \in Reps /\ t \in Reps)
+          /\ Deep2(s) /\ Deep2(t)
           /\ CanWrap(w, s) /\ CanWrap(w, t)
-          /\ \E m \in Modes(W(w, s), W(w, t)) : v = Case(W(w, s), W(w, t), m)
+          /\ Pick(W(w, s), W(w, t))
     \/ \E ww \in Wrap3 : \E s \in U3 : \E t \in U3 :
           /\ Related(s, t) \/ (s \in Reps3 /\ t \in Reps3 /\ "any" \in {s.kind, t.kind})
           /\ CanWrap(ww[2], s) /\ CanWrap(ww[2], t) /\ ww[1] # "mapkey"
-          /\ \E m \in Modes(W(ww[1], W(ww[2], s)), W(ww[1], W(ww[2], t))) :
-                v = Case(W(ww[1], W(ww[2], s)), W(ww[1], W(ww[2], t)), m)
+          /\ Pick(W(ww[1], W(ww[2], s)), W(ww[1], W(ww[2], t)))
 Next == UNCHANGED v
 Spec == Init /\ [][Next]_v
 
@@ -204,6 +239,6 @@ FlagsBlind == Reasons(v.a, v.b, {}, {}, {}) = Reasons(Plain(v.a), Plain(v.b), {}
 
 ModelOK == WFOK /\ Consistent /\ Terminates /\ Reflexive /\ RangesDeclarative /\ ModesOK /\ FlagsBlind
 
-Export == Emit([a |-> v.a, b |-> v.b, mode |-> v.mode, exp |-> Expect(v.a, v.b),
+Export == Emit([a |-> v.a, b |-> v.b, mode |-> v.mode, hist |-> v.hist, exp |-> Expect(v.a, v.b),
                 rules |-> Reasons(v.a, v.b, {}, {}, {})])
 =============================================================================
